@@ -4,7 +4,6 @@ mod verif_c04_update_largest {
     use qbase::varint::VarInt;
 
     use super::*;
-    //@include ../_shared/kani_stubs.rs
 
     /// A sent journal that has handed out the packet numbers `0..next_pn` (all records already rotated
     /// away: `update_largest` reads only `IndexDeque::largest()` = offset + len) and has seen
@@ -50,7 +49,7 @@ mod verif_c04_update_largest {
     /// a connection error of type PROTOCOL_VIOLATION".  `next_pn` is the number the NEXT packet will get,
     /// so every `largest >= next_pn` acknowledges a packet never sent.
     #[kani::proof]
-    #[kani::stub(tokio::time::Instant::now, any_instant)]
+    #[kani::unwind(2)] // std Mutex::lock_contended spin loop (unreachable: the mutex is never contended) must be cut
     fn update_largest_contract() {
         let next_pn: u64 = kani::any();
         let old: u64 = kani::any();
@@ -79,7 +78,7 @@ mod verif_c04_update_largest {
     /// number of the next packet to send, so an ACK for exactly the next, not yet sent, packet number is
     /// accepted (smallest witness: nothing sent at all, ACK{largest = 0}) and becomes `largest_acked`.
     #[kani::proof]
-    #[kani::stub(tokio::time::Instant::now, any_instant)]
+    #[kani::unwind(2)] // std Mutex::lock_contended spin loop (unreachable: the mutex is never contended) must be cut
     fn update_largest_accepts_next_unsent_pn() {
         let next_pn: u64 = kani::any();
         let old: u64 = kani::any();
